@@ -11,7 +11,8 @@ import traceback
 
 VERIF = os.path.dirname(os.path.dirname(os.path.abspath(__file__)))
 GEN = os.path.join(VERIF, 'coq', 'Gen')
-TRANSLATORS = ['tables', 'chordre', 'defaults', 'evaluate', 'writesites', 'chordrules', 'scalarfuncs', 'vecfuncs', 'wrapfuncs']
+TRANSLATORS = ['tables', 'chordre', 'defaults', 'evaluate', 'writesites', 'chordrules', 'scalarfuncs', 'vecfuncs', 'wrapfuncs',
+               'validfuncs']
 
 
 class TranslationError(Exception):
